@@ -213,7 +213,7 @@ theorem inv_move {p : User} {ps A : List User} {D : List (User × Int)} {m f : I
       ((perm_insertBy User.total p A).append_left _).append_right _
     refine h1.trans ?_
     have h2 : (List.map Prod.fst D ++ (p :: A) ++ ps).Perm (p :: (List.map Prod.fst D ++ A ++ ps)) := by
-      simpa using (List.perm_middle (a := p) (l₁ := List.map Prod.fst D) (l₂ := A ++ ps))  -- assoc
+      simp
     have h3 : (List.map Prod.fst D ++ A ++ p :: ps).Perm (p :: (List.map Prod.fst D ++ A ++ ps)) :=
       List.perm_middle
     exact h2.trans h3.symm
@@ -367,7 +367,7 @@ theorem body_spec {s : State} (hI : Inv us F RD s) (hc : cond s = true) :
         omega
       next hne =>
         refine advance_spec hI ⟨(har a (by simp)).2, by simp, ?_⟩ hf ?_ ?_
-        · intro u hu; have := sorted_head_le has u hu; dsimp only; omega
+        · intro u hu; have := sorted_head_le has u hu; omega
         · simp [atBreakpoint, hne]
         · intro f'; simp [atBreakpoint]
   | cons p ps =>
@@ -384,7 +384,7 @@ theorem body_spec {s : State} (hI : Inv us F RD s) (hc : cond s = true) :
       | nil =>
         dsimp only
         refine advance_spec hI ⟨hpg p (by simp), ?_, by simp⟩ hf ?_ ?_
-        · intro u hu; have := hpmin u hu; dsimp only; omega
+        · intro u hu; have := hpmin u hu; omega
         · simp [atBreakpoint, hpne]
         · intro f'; simp [atBreakpoint]
       | cons a rest =>
@@ -399,9 +399,18 @@ theorem body_spec {s : State} (hI : Inv us F RD s) (hc : cond s = true) :
           have hamin := sorted_head_le has
           have h1 := hpg p (by simp)
           have h2 := (har a (by simp)).2
-          refine advance_spec hI ⟨by omega, ?_, ?_⟩ hf ?_ ?_
-          · intro u hu; have := hpmin u hu; dsimp only; omega
-          · intro u hu; have := hamin u hu; dsimp only; omega
+          have hmin1 : min (p.running : Int) (a.total : Int) ≤ p.running := Int.min_le_left _ _
+          have hmin2 : min (p.running : Int) (a.total : Int) ≤ a.total := Int.min_le_right _ _
+          have hmin3 : min (p.running : Int) (a.total : Int) = p.running ∨
+              min (p.running : Int) (a.total : Int) = a.total := by
+            rcases Int.le_total (p.running : Int) (a.total : Int) with h | h
+            · left; exact Int.min_eq_left h
+            · right; exact Int.min_eq_right h
+          have hmin4 : m ≤ min (p.running : Int) (a.total : Int) := Int.le_min.mpr ⟨h1, h2⟩
+          generalize min (p.running : Int) (a.total : Int) = al at *
+          refine advance_spec hI ⟨hmin4, ?_, ?_⟩ hf ?_ ?_
+          · intro u hu; have := hpmin u hu; omega
+          · intro u hu; have := hamin u hu; omega
           · simp [atBreakpoint, hpne, hane]
           · intro f'
             simp only [atBreakpoint, Bool.or_eq_true, decide_eq_true_eq]
@@ -415,7 +424,7 @@ theorem remaining_nonneg {s : State} (h : Frame us RD s) : 0 ≤ readySum s.pend
   · exact sum_map_nonneg _ _ (fun u _ => by omega)
   · exact sum_map_nonneg _ _ (fun u hu => by have := (h.alloc_rng u hu).2; omega)
 
-theorem exit_post {s : State} (hI : Inv us F RD s) (hc : cond s = false) (hF : 0 < F) : Post us F RD s := by
+theorem exit_post {s : State} (hI : Inv us F RD s) (hc : cond s = false) : Post us F RD s := by
   obtain ⟨hr1, hr2⟩ := remaining_nonneg hI.toFrame
   have hbud := hI.budget
   have hdem := hI.demand
@@ -442,7 +451,7 @@ theorem exit_post {s : State} (hI : Inv us F RD s) (hc : cond s = false) (hF : 0
     · omega
     · rw [hrem, hP, hA]; simp [readySum]
 
-theorem loop_spec (hF : 0 < F) : ∀ (fuel : Nat) (s : State), measure s < fuel → Inv us F RD s →
+theorem loop_spec (_hF : 0 < F) : ∀ (fuel : Nat) (s : State), measure s < fuel → Inv us F RD s →
     ∃ s', loop fuel s = some s' ∧ Post us F RD s' := by
   intro fuel
   induction fuel with
@@ -456,7 +465,7 @@ theorem loop_spec (hF : 0 < F) : ∀ (fuel : Nat) (s : State), measure s < fuel 
       · rw [hb]; exact ih s' (by omega) hI'
       · rw [hb]; exact ⟨s', rfl, hP⟩
     · rw [if_neg hc]
-      exact ⟨s, rfl, exit_post hI (by simpa using hc) hF⟩
+      exact ⟨s, rfl, exit_post hI (by simpa using hc)⟩
 
 /-! ### the initial state -/
 
@@ -477,7 +486,7 @@ theorem initPending_sorted (us : List User) :
     (initPending us).Pairwise (fun a b => a.running ≤ b.running) := (initPending_aux us [] List.Pairwise.nil).1
 
 theorem initPending_perm (us : List User) : (initPending us).Perm us := by
-  simpa using (initPending_aux us [] List.Pairwise.nil).2
+  simpa [initPending] using (initPending_aux us [] List.Pairwise.nil).2
 
 theorem init_frame (us : List User) (free : Int) : Frame us (readySum us) (initState us free) := by
   refine ⟨?_, ?_, ?_, ?_, ?_⟩
@@ -510,6 +519,11 @@ theorem sum_roundHalf {A : List User} {m : Int} (h : ∀ u ∈ A, (u.running : I
   intro u hu
   exact roundHalf_of_nonneg (by have := h u hu; omega)
 
+theorem sum_map_zero (l : List User) : (l.map fun _ => (0 : Int)).sum = 0 := by
+  induction l with
+  | nil => rfl
+  | cons _ _ ih => simp [ih]
+
 theorem result_users (s : State) : s.result.map Prod.fst = s.users := by
   simp [State.result, State.users, List.map_append, Function.comp_def]
 
@@ -517,7 +531,7 @@ theorem result_sum {s : State} (h : Frame us RD s) : allocSum s.result = committ
   have := sum_roundHalf (A := s.allocating) (m := s.mark) (fun u hu => (h.alloc_rng u hu).1)
   simp only [allocSum, State.result, committed, List.map_append, List.sum_append, List.map_map,
     Function.comp_def] at this ⊢
-  rw [this]
+  rw [this, sum_map_zero]
   simp
 
 theorem result_level {s : State} (h : Frame us RD s) : ∀ p ∈ s.result, p.2 = level s.mark p.1 := by
@@ -565,8 +579,9 @@ theorem fairShareState_spec (us : List User) (free : Int) :
   by_cases hf : 0 < free
   · obtain ⟨s', h1, h2⟩ := loop_spec hf (fuelFor us) (initState us free) (init_measure us free) (init_inv us (by omega))
     exact ⟨s', h1, h2.toFrame, by omega, fun _ => h2⟩
-  · refine ⟨initState us free, ?_, init_frame us free, fun _ => rfl, by omega⟩
-    have : cond (initState us free) = false := by simp [cond, initState]; omega
+  · refine ⟨initState us free, ?_, init_frame us free, fun _ => rfl, fun h => absurd h hf⟩
+    have : cond (initState us free) = false := by
+      unfold cond; rw [show (initState us free).free = free from rfl, decide_eq_false hf]; rfl
     simp [fuelFor, loop, this]
 
 end HailVerif.FairShare
